@@ -26,10 +26,14 @@ class Runner:
             s.worlds[k] = w
         return w
 
-    def run_transform(s, kind, cap, n, ncols, nphase, nblock, buf, dstmode, nthreads):
+    def run_transform(s, kind, cap, n, ncols, nphase, nblock, buf, dstmode, nthreads, restore=True):
         """kind in ntt|intt ; returns None if fine, else (status, message, site)"""
         W, this, snap = s.world(cap, nthreads)
-        W.restore(snap)
+        if restore:
+            W.restore(snap)
+        else:
+            W.I.reads = []
+            W.I.writes = []
         I = W.I
         src = W.buffer('src', n * ncols)
         if dstmode == 'other':
@@ -92,10 +96,13 @@ class Runner:
             return ('refuted', 'kernel precondition: %s %s' % (v['callee'], v['detail']), None)
         return None
 
-    def run_extend(s, capN, N, Next, ncols, nphase, nblock, buf, nthreads, inplace=True, this_world=None):
-        W, this, snap = this_world or s.world(capN, nthreads)
-        if this_world is None:
+    def run_extend(s, capN, N, Next, ncols, nphase, nblock, buf, nthreads, inplace=True, restore=True):
+        W, this, snap = s.world(capN, nthreads)
+        if restore:
             W.restore(snap)
+        else:
+            W.I.reads = []
+            W.I.writes = []
         I = W.I
         io = W.buffer('io', Next * ncols)
         inp = io
@@ -137,7 +144,7 @@ class Runner:
 def ntt_configs(tier, seed=0):
     """(cap, n, ncols, nphase, nblock, buf, dstmode, nthreads)"""
     out = []
-    caps = [1, 2, 4, 8, 16] if tier == 'quick' else [1, 2, 4, 8, 16, 32, 64]
+    caps = [1, 2, 4, 8, 16, 32] if tier == 'quick' else [1, 2, 4, 8, 16, 32, 64, 128]
     for cap in caps:
         n = 1
         while n <= cap:
@@ -155,7 +162,7 @@ def ntt_configs(tier, seed=0):
         # deterministic thinning: keep every configuration of the small shapes, one third of the larger ones
         keep = []
         for i, c in enumerate(out):
-            if c[0] <= 4 or (i + seed) % 3 == 0:
+            if c[0] <= 8 or (i + seed) % 2 == 0:
                 keep.append(c)
         out = keep
     # degenerate shapes
@@ -165,3 +172,79 @@ def ntt_configs(tier, seed=0):
         out.append((cap, 0, 0, 0, 0, True, 'null', 1))
         out.append((cap, 4, 2, 2 ** 64 - 1, 2 ** 64 - 1, False, 'src', 1))
     return out
+
+
+def ext_configs(tier, seed=0):
+    """(capN, N, Next, ncols, nphase, nblock, buf, nthreads, inplace)"""
+    out = []
+    maxext = 32 if tier == 'quick' else 128
+    N = 1
+    while N <= maxext:
+        Next = N
+        while Next <= maxext:
+            for capN in sorted({N, 2 * N} if tier == 'quick' else {N, 2 * N, 8 * N}):
+                for ncols in ([1, 3] if tier == 'quick' else [1, 2, 5]):
+                    for nphase in ([0, 1, 2, 3] if tier == 'quick' else range(0, 7)):
+                        for nblock in (0, 1, 2, ncols + 1):
+                            for buf in (False, True):
+                                for inplace in (True, False):
+                                    out.append((capN, N, Next, ncols, nphase, nblock, buf, 1 if tier == 'quick' else 3, inplace))
+            Next *= 2
+        N *= 2
+    if tier == 'quick':
+        out = [c for i, c in enumerate(out) if c[2] <= 8 or (i + seed) % 3 == 0]
+    return out
+
+
+def describe_ntt(c):
+    cap, n, ncols, nphase, nblock, buf, dstmode, nthreads = c
+    return 'capacity=%d size=%d ncols=%d nphase=%d nblock=%d buffer=%s dst=%s nThreads=%d' % (
+        cap, n, ncols, nphase, nblock, 'caller' if buf else 'NULL', dstmode, nthreads)
+
+
+def describe_ext(c):
+    capN, N, Next, ncols, nphase, nblock, buf, nthreads, inplace = c
+    return 'capacity=%d N=%d N_ext=%d ncols=%d nphase=%d nblock=%d buffer=%s nThreads=%d %s' % (
+        capN, N, Next, ncols, nphase, nblock, 'caller' if buf else 'NULL', nthreads, 'in place' if inplace else 'separate input')
+
+
+def _worker(args):
+    kind, cfgs, cfgname = args
+    R = Runner(cfgname)
+    out = []
+    for c in cfgs:
+        try:
+            if kind in ('ntt', 'intt'):
+                r = R.run_transform(kind, *c)
+            else:
+                r = R.run_extend(*c)
+        except Exception as e:      # engine failure: incomplete, never a verdict
+            r = ('incomplete', 'engine: %s: %s' % (type(e).__name__, str(e)[:200]), None)
+        out.append((c, r))
+    return out
+
+
+def run_parallel(kind, cfgs, cfgname='avx2', nproc=None):
+    import multiprocessing as mp
+    nproc = nproc or min(16, os.cpu_count() or 4)
+    if len(cfgs) < 64 or nproc == 1:
+        return _worker((kind, cfgs, cfgname))
+    chunks = [cfgs[i::nproc] for i in range(nproc)]
+    with mp.Pool(nproc) as pool:
+        res = pool.map(_worker, [(kind, ch, cfgname) for ch in chunks])
+    out = []
+    for r in res:
+        out += r
+    return out
+
+
+def record(rep, kind, results, describe, rule):
+    groups = {}
+    for c, r in results:
+        tag = '%s:%s' % (kind, describe(c))
+        if r is None:
+            rep.ok(tag, rule, 'src/ntt_goldilocks.cpp', 'all output cells have the specified coefficient vectors; source untouched; extents respected; allocations released')
+        else:
+            st, msg, loc = r
+            site = '%s:%s' % (front.rel(loc[0]), loc[1]) if loc and loc[0] else 'src/ntt_goldilocks.cpp'
+            (rep.refute if st == 'refuted' else rep.incomplete)(tag, rule, site, msg)
